@@ -51,6 +51,8 @@ theorem fwd_pending : ((pushDown (popUp net c rest) d m).cl j).pending = (net.cl
   simp only [pushDown, popUp, Net.upd_cl]; repeat' split <;> simp_all
 theorem fwd_nextSerial : ((pushDown (popUp net c rest) d m).cl j).nextSerial = (net.cl j).nextSerial := by
   simp only [pushDown, popUp, Net.upd_cl]; repeat' split <;> simp_all
+theorem fwd_late : ((pushDown (popUp net c rest) d m).cl j).late = (net.cl j).late := by
+  simp only [pushDown, popUp, Net.upd_cl]; repeat' split <;> simp_all
 theorem fwd_dropped : (pushDown (popUp net c rest) d m).dropped = net.dropped := rfl
 theorem fwd_n : (pushDown (popUp net c rest) d m).n = net.n := rfl
 
@@ -71,6 +73,8 @@ theorem drp_issued : ((addDropped (popUp net c rest) m).cl j).issued = (net.cl j
 theorem drp_pending : ((addDropped (popUp net c rest) m).cl j).pending = (net.cl j).pending := by
   simp only [addDropped, popUp, Net.upd_cl]; repeat' split <;> simp_all
 theorem drp_nextSerial : ((addDropped (popUp net c rest) m).cl j).nextSerial = (net.cl j).nextSerial := by
+  simp only [addDropped, popUp, Net.upd_cl]; repeat' split <;> simp_all
+theorem drp_late : ((addDropped (popUp net c rest) m).cl j).late = (net.cl j).late := by
   simp only [addDropped, popUp, Net.upd_cl]; repeat' split <;> simp_all
 theorem drp_dropped : (addDropped (popUp net c rest) m).dropped = net.dropped ++ [m] := rfl
 theorem drp_n : (addDropped (popUp net c rest) m).n = net.n := rfl
@@ -135,13 +139,20 @@ theorem Inv.forward (inv : Inv w net) {m m' : Msg V} {rest : List (Msg V)} {d : 
   · intro a r h hz
     rw [fwd_issued] at h; rw [fwd_completions] at hz; rw [fwd_pending]
     exact inv.pend a r h hz
+  · intro a s v hp
+    rw [fwd_pending] at hp; rw [fwd_issued, fwd_completions]
+    exact inv.pend_inv a s v hp
+  · intro a s
+    rw [fwd_completions]; exact inv.compl_le a s
+  · intro a s hs
+    rw [fwd_late] at hs; rw [fwd_completions]; exact inv.late_ok a s hs
   · intro a r h
     rw [fwd_issued] at h
     have := inv.tok a r h
     have e1 := countP_ite_tail (isCall r.serial) (a = c) (net.cl a).up rest m (hu a)
     have e2 := countP_ite_tail (isReplyTo a r.serial) (r.dest = c) (net.cl r.dest).up rest m (hu r.dest)
     obtain ⟨h1, h2⟩ := hs a r h
-    simp only [tokens, stages, Stages.total, fwd_up, fwd_down, fwd_exec, fwd_completions, fwd_dropped,
+    simp only [tokens, stages, Stages.total, fwd_up, fwd_down, fwd_exec, fwd_completions, fwd_late, fwd_dropped,
       countP_ite_snoc] at this ⊢
     omega
   · intro a r h
@@ -149,7 +160,7 @@ theorem Inv.forward (inv : Inv w net) {m m' : Msg V} {rest : List (Msg V)} {d : 
     have := inv.ans_cnt a r h
     have e2 := countP_ite_tail (isReplyTo a r.serial) (r.dest = c) (net.cl r.dest).up rest m (hu r.dest)
     obtain ⟨h1, h2⟩ := hs a r h
-    simp only [answersFor, stages, fwd_up, fwd_down, fwd_exec, fwd_completions, fwd_dropped, fwd_answers,
+    simp only [answersFor, stages, fwd_up, fwd_down, fwd_exec, fwd_completions, fwd_late, fwd_dropped, fwd_answers,
       countP_ite_snoc] at this ⊢
     omega
   · intro a r h
@@ -202,13 +213,20 @@ theorem Inv.drop (inv : Inv w net) {m m' : Msg V} {rest : List (Msg V)}
   · intro a r h hz
     rw [drp_issued] at h; rw [drp_completions] at hz; rw [drp_pending]
     exact inv.pend a r h hz
+  · intro a s v hp
+    rw [drp_pending] at hp; rw [drp_issued, drp_completions]
+    exact inv.pend_inv a s v hp
+  · intro a s
+    rw [drp_completions]; exact inv.compl_le a s
+  · intro a s hs
+    rw [drp_late] at hs; rw [drp_completions]; exact inv.late_ok a s hs
   · intro a r h
     rw [drp_issued] at h
     have := inv.tok a r h
     have e1 := countP_ite_tail (isCall r.serial) (a = c) (net.cl a).up rest m (hu a)
     have e2 := countP_ite_tail (isReplyTo a r.serial) (r.dest = c) (net.cl r.dest).up rest m (hu r.dest)
     obtain ⟨h1, h2⟩ := hs a r h
-    simp only [tokens, stages, Stages.total, drp_up, drp_down, drp_exec, drp_completions, drp_dropped,
+    simp only [tokens, stages, Stages.total, drp_up, drp_down, drp_exec, drp_completions, drp_late, drp_dropped,
       countP_snoc] at this ⊢
     omega
   · intro a r h
@@ -216,7 +234,7 @@ theorem Inv.drop (inv : Inv w net) {m m' : Msg V} {rest : List (Msg V)}
     have := inv.ans_cnt a r h
     have e2 := countP_ite_tail (isReplyTo a r.serial) (r.dest = c) (net.cl r.dest).up rest m (hu r.dest)
     obtain ⟨h1, h2⟩ := hs a r h
-    simp only [answersFor, stages, drp_up, drp_down, drp_exec, drp_completions, drp_dropped, drp_answers,
+    simp only [answersFor, stages, drp_up, drp_down, drp_exec, drp_completions, drp_late, drp_dropped, drp_answers,
       countP_snoc] at this ⊢
     omega
   · intro a r h
